@@ -13,16 +13,16 @@ open MdVerif.NoCtl (STX ETX NoCtl)
 open MdVerif.NoCtlF (nn NlOpt BeforeTok AfterTok OwnBlock)
 open MdVerif.Fenced
 
-/-- the loop invariant without the domain of C10 -/
-structure FInv1 (text : Str) (index h : Nat) : Prop where
+/-- the loop invariant without the domain of C10 (`amp = false`: the text has no `&` either) -/
+structure FInv1 (amp : Bool) (text : Str) (index h : Nat) : Prop where
   own : OwnBlock h text
   rest : NoCtl (text.drop index)
-  noamp : '&' ∉ text
+  noamp : amp = false → '&' ∉ text
 
 /-- **one replacement keeps the invariant** -/
-theorem finv1_step {text : Str} {index h : Nat} (hI : FInv1 text index h) {m : FenceMatch}
+theorem finv1_step {amp : Bool} {text : Str} {index h : Nat} (hI : FInv1 amp text index h) {m : FenceMatch}
     (hm : fenceFindFrom text index = some m) :
-    FInv1 (text.take m.start ++ '\n' :: (Fenced.placeholder h ++ '\n' :: text.drop m.stop))
+    FInv1 amp (text.take m.start ++ '\n' :: (Fenced.placeholder h ++ '\n' :: text.drop m.stop))
       (m.start + 1 + (Fenced.placeholder h).length) (h + 1) := by
   haveI : NoCtlF.HtmlBound := ⟨0, false⟩
   obtain ⟨b1, b2, b3, hls, ⟨c, rD, hD, hc⟩, hle, _, _, _⟩ := fenceFindFrom_shape hm
@@ -149,19 +149,19 @@ theorem finv1_step {text : Str} {index h : Nat} (hI : FInv1 text index h) {m : F
               · revert hm'; decide
               · exact hCn.2 hm'⟩
   · -- no ampersand
-    intro hd
+    intro hamp hd
     simp only [List.mem_append, List.mem_cons] at hd
     rcases hd with hd | hd | hd | hd | hd
-    · exact hI.noamp (by rw [htext]; exact List.mem_append_left _ hd)
+    · exact hI.noamp hamp (by rw [htext]; exact List.mem_append_left _ hd)
     · revert hd; decide
     · exact ph_not_mem h (by decide) (by decide) (by decide) hd
     · revert hd; decide
-    · exact hI.noamp (by rw [← hC] at hd; exact (List.drop_suffix _ _).subset hd)
+    · exact hI.noamp hamp (by rw [← hC] at hd; exact (List.drop_suffix _ _).subset hd)
 
-theorem fencedLoopA_inv1 : ∀ (fuel : Nat) (text : Str) (index : Nat) (stash : List Str) (t' : Str)
+theorem fencedLoopA_inv1 (amp : Bool) : ∀ (fuel : Nat) (text : Str) (index : Nat) (stash : List Str) (t' : Str)
     (stash' : List Str), Fenced.fencedLoopA fuel text index stash = .ok t' stash' →
-    FInv1 text index stash.length → (∀ e ∈ stash, NoCtl e) →
-    (OwnBlock stash'.length t' ∧ '&' ∉ t') ∧ ∀ e ∈ stash', NoCtl e := by
+    FInv1 amp text index stash.length → (∀ e ∈ stash, NoCtl e) →
+    (OwnBlock stash'.length t' ∧ (amp = false → '&' ∉ t')) ∧ ∀ e ∈ stash', NoCtl e := by
   intro fuel
   induction fuel with
   | zero => intro text index stash t' stash' h; simp [Fenced.fencedLoopA] at h
@@ -205,7 +205,16 @@ theorem fencedLoopA_inv1 : ∀ (fuel : Nat) (text : Str) (index : Nat) (stash : 
 theorem fencedRunA_own1 {t t' : Str} {stash : List Str} (h : Fenced.fencedRunA t = .ok t' stash)
     (hn : NoCtl t) (ha : '&' ∉ t) :
     (OwnBlock stash.length t' ∧ '&' ∉ t') ∧ ∀ e ∈ stash, NoCtl e :=
-  fencedLoopA_inv1 _ _ _ _ _ _ h
-    ⟨ownBlock_of_noCtl hn, by simpa using hn, ha⟩ (fun e he => by cases he)
+  have := fencedLoopA_inv1 false _ _ _ _ _ _ h
+    ⟨ownBlock_of_noCtl hn, by simpa using hn, fun _ => ha⟩ (fun e he => by cases he)
+  ⟨⟨this.1.1, this.1.2 rfl⟩, this.2⟩
+
+/-- **`FencedBlockPreprocessor.run` on ANY text without STX/ETX**: every placeholder written is a block of its own, no
+    stash entry holds STX/ETX -/
+theorem fencedRunA_own0 {t t' : Str} {stash : List Str} (h : Fenced.fencedRunA t = .ok t' stash)
+    (hn : NoCtl t) : OwnBlock stash.length t' ∧ ∀ e ∈ stash, NoCtl e :=
+  have := fencedLoopA_inv1 true _ _ _ _ _ _ h
+    ⟨ownBlock_of_noCtl hn, by simpa using hn, fun h => by cases h⟩ (fun e he => by cases he)
+  ⟨this.1.1, this.2⟩
 
 end MdVerif.NoCtlXF.XT
